@@ -7,11 +7,52 @@ import json, os, pickle, re, sys
 from collections import defaultdict, deque
 
 
+_HEAD_PARAMS = None
+
+
+def _head_params():
+    """Parameter names at the time the rules were written (tables/head_params.json).  Parameters are positions; the
+    rules spell them with the names they had then."""
+    global _HEAD_PARAMS
+    if _HEAD_PARAMS is None:
+        _HEAD_PARAMS = {}
+        if not os.environ.get("VERIF_NO_HEAD_PARAMS"):
+            p = os.path.join(os.path.dirname(os.path.dirname(os.path.abspath(__file__))), "tables", "head_params.json")
+            try:
+                with open(p) as fh:
+                    _HEAD_PARAMS = json.load(fh)["params"]
+            except (OSError, ValueError, KeyError):
+                _HEAD_PARAMS = {}
+    return _HEAD_PARAMS
+
+
+def _relabel_params(rec):
+    want = _head_params().get(rec.get("def"))
+    n = rec.get("arg_count", 0)
+    if not want or len(want) != n:
+        return
+    locs = rec["locals"]
+    if [w[1] for w in want] != [locs[i]["ty"] for i in range(1, n + 1)]:
+        return                          # different signature: not the same parameters
+    want = [w[0] for w in want]
+    cur = [locs[i].get("name") for i in range(1, n + 1)]
+    if cur == want:
+        return
+    others = {l.get("name") for i, l in enumerate(locs) if i > n and l.get("name")}
+    for i in range(1, n + 1):
+        w = want[i - 1]
+        if w and locs[i].get("name") and locs[i].get("name") != w and w not in others:
+            # keep the upvar/debug spelling out of the way of other locals that use the old name
+            locs[i] = dict(locs[i], name=w, renamed_from=locs[i].get("name"))
+
+
 class Body:
     __slots__ = ("rec", "name", "blocks", "locals", "arg_count", "_succ", "_pred",
                  "_defs", "promoted", "facts", "_calls", "_closures")
 
     def __init__(self, rec, facts=None):
+        if "def" in rec and not rec.get("coroutine") and "{closure" not in rec["def"]:
+            _relabel_params(rec)
         self.rec = rec
         self.name = rec.get("def", "<promoted>")
         self.blocks = rec["blocks"]
